@@ -45,6 +45,32 @@ class FSet:
         self.hi, self.hi_open = math.inf, False
         self.nan = True
 
+    def copy(self):
+        o = FSet()
+        o.lo, o.lo_open, o.hi, o.hi_open, o.nan = self.lo, self.lo_open, self.hi, self.hi_open, self.nan
+        o.empty = getattr(self, "empty", False)
+        return o
+
+    def is_empty(self):
+        if self.lo > self.hi or (self.lo == self.hi and (self.lo_open or self.hi_open)):
+            return not self.nan
+        return False
+
+    def join(self, o):
+        r = self.copy()
+        if o.lo < r.lo or (o.lo == r.lo and not o.lo_open):
+            r.lo, r.lo_open = o.lo, o.lo_open if o.lo < self.lo else (self.lo_open and o.lo_open)
+        if o.hi > r.hi or (o.hi == r.hi and not o.hi_open):
+            r.hi, r.hi_open = o.hi, o.hi_open if o.hi > self.hi else (self.hi_open and o.hi_open)
+        r.nan = self.nan or o.nan
+        return r
+
+    def key(self):
+        return (self.lo, self.lo_open, self.hi, self.hi_open, self.nan)
+
+    def numeric_empty(self):
+        return self.lo > self.hi or (self.lo == self.hi and (self.lo_open or self.hi_open))
+
     def meet_lt(self, k, strict):      # x < k  (strict) or x <= k
         if k < self.hi or (k == self.hi and strict and not self.hi_open):
             self.hi, self.hi_open = k, strict
@@ -71,6 +97,8 @@ def _apply_fcmp(s, pred, k, truth, value_on_left):
         # comparison holds: for ordered predicates x is not NaN
         if ordered:
             s.nan = False
+        else:
+            return   # unordered-true may be NaN: no numeric information
         if base == "gt":
             s.meet_gt(k, True)
         elif base == "ge":
@@ -84,6 +112,7 @@ def _apply_fcmp(s, pred, k, truth, value_on_left):
         # comparison false: either NaN (ordered pred) or the complement
         if not ordered:
             s.nan = False
+        # ordered-false: x is NaN or in the complement; the complement bounds hold for the non-NaN values
         if base == "gt":
             s.meet_lt(k, False)
         elif base == "ge":
@@ -121,32 +150,17 @@ def r1(chk, prog):
             if not _path_unmodified(prog, f, vpath):
                 chk.undecided(rid, f.name, sig, c.locstr(), "the converted location may be written between guard and conversion")
                 continue
-            s = FSet()
-            used = []
-            for cmp_, truth in dominating_conditions(f, c.block):
-                if getattr(cmp_, "op", None) != "fcmp":
-                    continue
-                a, b = cmp_.ops
-                pa = P.path(a) if a.kind == "reg" else None
-                pb = P.path(b) if b.kind == "reg" else None
-                pred = cmp_.x["pred"]
-                if pred in ("uno", "ord") and pa == vpath and (pb == vpath or b.kind == "float"):
-                    isnan_true = (pred == "uno") == truth
-                    if not isnan_true:
-                        s.nan = False
-                    used.append("%s: isnan(x) is %s" % (cmp_.locstr(), isnan_true))
-                    continue
-                if pa == vpath and b.kind == "float" and b.v is not None:
-                    _apply_fcmp(s, pred, b.v, truth, True)
-                    used.append("%s: (x %s %r) is %s" % (cmp_.locstr(), pred, b.v, truth))
-                elif pb == vpath and a.kind == "float" and a.v is not None:
-                    _apply_fcmp(s, pred, a.v, truth, False)
-                    used.append("%s: (%r %s x) is %s" % (cmp_.locstr(), a.v, pred, truth))
+            s, used = _fset_at(f, P, vpath, c.block)
+            if s is None:
+                chk.proven(rid, f.name, sig, c.locstr(), "conversion unreachable")
+                continue
             # compare with the defined domain, exactly (Fractions of doubles are exact)
             from fractions import Fraction
             bad = None
             if s.nan:
                 bad = "NaN"
+            elif s.numeric_empty():
+                bad = None
             else:
                 if math.isinf(s.hi) or Fraction(s.hi) > hi_exact or (Fraction(s.hi) == hi_exact and not s.hi_open):
                     bad = repr(s.hi) if not math.isinf(s.hi) else "+inf"
@@ -165,6 +179,57 @@ def r1(chk, prog):
                             "on the open interval (%d, %d); the result is undefined (wraps to the opposite bound on x86)"
                             % (c.op, bad, _pow2name(bad), s, lo_exact, hi_exact), detail)
     chk.floor(rid, n, 3, "float->integer conversions")
+
+
+def _fset_at(f, P, vpath, target):
+    """forward abstract interpretation: the set of doubles (interval + may-be-NaN) the location `vpath` can hold on
+    entry to each block, refined on every edge by the fcmp conditions on that location; join = hull"""
+    from ..flow import _flatten_cond
+    state = {f.entry: FSet()}
+    work = [f.entry]
+    used = []
+    iters = 0
+    while work and iters < 5000:
+        iters += 1
+        b = work.pop()
+        st = state[b]
+        t = b.term
+        outs = []
+        if t.op == "br" and len(t.x["targets"]) == 2 and t.ops and t.x["targets"][0] != t.x["targets"][1]:
+            for tgt, truth in ((t.x["targets"][0], True), (t.x["targets"][1], False)):
+                s2 = st.copy()
+                for cmp_, tr in _flatten_cond(f, t.ops[0], truth):
+                    if cmp_.op != "fcmp":
+                        continue
+                    a, bb = cmp_.ops
+                    pa = P.path(a) if a.kind == "reg" else None
+                    pb = P.path(bb) if bb.kind == "reg" else None
+                    pred = cmp_.x["pred"]
+                    if pred in ("uno", "ord") and pa == vpath and (pb == vpath or bb.kind == "float"):
+                        isnan_true = (pred == "uno") == tr
+                        if isnan_true:
+                            s2.lo, s2.hi, s2.lo_open, s2.hi_open = 1.0, 0.0, False, False   # no ordinary value
+                        else:
+                            s2.nan = False
+                        used.append("%s: isnan(x) is %s" % (cmp_.locstr(), isnan_true))
+                    elif pa == vpath and bb.kind == "float" and bb.v is not None:
+                        _apply_fcmp(s2, pred, bb.v, tr, True)
+                        used.append("%s: (x %s %r) is %s" % (cmp_.locstr(), pred, bb.v, tr))
+                    elif pb == vpath and a.kind == "float" and a.v is not None:
+                        _apply_fcmp(s2, pred, a.v, tr, False)
+                        used.append("%s: (%r %s x) is %s" % (cmp_.locstr(), a.v, pred, tr))
+                outs.append((f.blocks[tgt], s2))
+        else:
+            outs = [(s_, st) for s_ in b.succs]
+        for nb, s2 in outs:
+            if s2.numeric_empty() and not s2.nan:
+                continue   # infeasible edge
+            old = state.get(nb)
+            new = s2 if old is None else old.join(s2)
+            if old is None or new.key() != old.key():
+                state[nb] = new
+                work.append(nb)
+    return state.get(target), sorted(set(used))
 
 
 def _pow2name(s):
